@@ -85,6 +85,12 @@ func (prop) Plan(tier string, seed int64) []core.Batch {
 		p, _ := json.Marshal(params{Mode: "flood", Tables: t})
 		plan = append(plan, core.Batch{Name: "flood/" + t, N: 1, Params: p, Timeout: 900})
 	}
+	// port sweeps: what the listener keeps per peer grows with the number of distinct ports probed, and is
+	// reported once the peers have been quiet for the detector's period
+	for _, t := range []string{"direct", "gateway"} {
+		p, _ := json.Marshal(params{Mode: "sweep", Tables: t})
+		plan = append(plan, core.Batch{Name: "sweep/" + t, N: 1, Params: p, Timeout: 900})
+	}
 	p, _ = json.Marshal(params{Mode: "floodmix", Tables: "gateway"})
 	plan = append(plan, core.Batch{Name: "floodmix/gateway", N: 1, Params: p, Timeout: 900})
 	p, _ = json.Marshal(params{Mode: "floodsame", Tables: "gateway"})
@@ -434,6 +440,40 @@ func (prop) Child(b core.Batch, o *core.Obs) {
 			o.EmitX("scn", rec)
 			o.End(k)
 		}
+	case "sweep":
+		h, err := lab.StartCanary("canary", p.Tables, peers, true)
+		if err != nil {
+			o.Emit(core.Rec{T: "starterr", S: err.Error()})
+			return
+		}
+		k := b.From
+		o.Begin(k)
+		t0 := time.Now()
+		frames := 0
+		ok := true
+		// round 0: one peer probes 30000 tcp ports, another 1500 udp ports, a third 300 tcp ports; round 1: 1100
+		// tcp ports from a fourth peer. After each round the peers stay quiet until the reports are out.
+		for round, plan := range [][][3]int{{{1, 6, 30000}, {2, 17, 1500}, {3, 6, 300}}, {{4, 6, 1100}, {1, 6, 5}}} {
+			for _, sw := range plan {
+				src := net.IPv4(100, 80, byte(round), byte(sw[0]))
+				for port := 1; port <= sw[2]; port++ {
+					var l4 []byte
+					if sw[1] == 6 {
+						l4 = fr.TCP{Sport: uint16(30000 + port%20000), Dport: uint16(port), Seq: uint32(port), Off: -1, Flags: fr.SYN}.Marshal(src, me, nil)
+					} else {
+						l4 = fr.UDP(src, me, 40000, uint16(20000+port), -1, []byte("sweep"))
+					}
+					h.Write(eth(fr.IPv4{IHL: -1, TotalLen: -1, Proto: uint8(sw[1]), Src: src, Dst: me}.Marshal(l4), 0x0800))
+					frames++
+				}
+			}
+			ok = (probe(h, fmt.Sprintf("sweep-%d", round)) || probe(h, fmt.Sprintf("sweep-%d-retry", round))) && ok
+			time.Sleep(6500 * time.Millisecond) // the detector reports a peer after five quiet seconds
+			ok = (probe(h, fmt.Sprintf("after-%d", round)) || probe(h, fmt.Sprintf("after-%d-retry", round))) && ok
+			o.Emit(core.Rec{T: "progress", N: int64(frames), S: fmt.Sprintf("round %d states=%d ms=%d", round, h.C.VerifStates(), time.Since(t0).Milliseconds())})
+		}
+		o.EmitX("scn", scnRec{Mode: p.Mode, Tables: p.Tables, Frames: frames, Hash: p.Mode + "/" + p.Tables, ProbeOK: ok, States: h.C.VerifStates(), WallMs: time.Since(t0).Milliseconds()})
+		o.End(k)
 	case "flood", "floodmix", "floodhold", "floodsame":
 		h, err := lab.StartCanary("canary", p.Tables, peers, true)
 		if err != nil {
